@@ -26,7 +26,7 @@ func L(xs ...Sx) Sx {
 	}
 	return Sx("(" + strings.Join(ss, " ") + ")")
 }
-func LS(xs []Sx) Sx  { return L(xs...) }
+func LS(xs []Sx) Sx    { return L(xs...) }
 func Name(s string) Sx { return Sx("x" + hex.EncodeToString([]byte(s))) }
 func Int(i int) Sx     { return Sx(strconv.Itoa(i)) }
 func I64(i int64) Sx   { return Sx(strconv.FormatInt(i, 10)) }
@@ -150,6 +150,11 @@ func main() {
 	if len(os.Args) < 3 {
 		fmt.Println("usage: yaeh <Cxx> <outdir> [seed] [tier] | yaeh replay <Cxx> <file>")
 		os.Exit(2)
+	}
+	if os.Args[1] == "C12child" {
+		i, _ := strconv.Atoi(os.Args[2])
+		c12Child(i)
+		return
 	}
 	prop, outDir := os.Args[1], os.Args[2]
 	seed := int64(1)
